@@ -16,6 +16,7 @@ fn usage() -> ! {
 fn main() {
     install_panic_hook();
     framework::watchdog::start();
+    simio::cleanup_stale_scratch();
     let args: Vec<String> = std::env::args().collect();
     if args.len() < 2 {
         usage();
